@@ -60,7 +60,10 @@ type scheduler struct {
 	seq      int
 	mainDone chan struct{}
 	timers   []*ChanV
-	trace    []int
+	// timerFires counts one-shot timers (time.After / NewTimer) that had to fire because every
+	// goroutine was blocked: "somebody waited for a timeout" (vf.TimerFires)
+	timerFires int
+	trace      []int
 }
 
 type pathAbort struct{}
@@ -165,6 +168,9 @@ func (s *scheduler) fireTimer() bool {
 		c.buf = append(c.buf, Struct{BVc(64, 0)})
 		if len(s.enabled()) > 0 {
 			t.fires++
+			if !t.ticker {
+				s.timerFires++
+			}
 			return true
 		}
 		c.buf = c.buf[:0]
